@@ -399,7 +399,9 @@ template <class P> static void creators(Rng& g, int reps) {
   using T = typename P::value_type;
   const size_t n = P::degree, nm = P::nmoduli;
   T p0 = P::get_modulus(0), pl = P::get_modulus(nm - 1);
-  T vs[] = {0, 1, 2, (T)(pl - 1), pl, (T)(pl + 1), (T)(p0 - 1), p0, (T)(p0 + 1), (T)(2 * p0), (T)~(T)0, (T)g.next(), (T)g.next()};
+  T vs[] = {0, 1, 2, (T)(pl - 1), pl, (T)(pl + 1), (T)(p0 - 1), p0, (T)(p0 + 1), (T)(2 * p0), (T)~(T)0, (T)g.next(), (T)g.next(),
+            (T)(2 * p0 - 1), (T)(2 * pl + 1), (T)(3 * p0), (T)(3 * pl - 1), (T)(3 * p0 + 2),
+            (T)(((T)1 << g.below(8 * sizeof(T))) + (T)g.below(2)), (T)(((T)1 << g.below(8 * sizeof(T))) - 1)};
   for (T v : vs)
     for (int red = 0; red < 2; red++) {
       int via = next_via() % 3;
@@ -440,7 +442,9 @@ template <class P> static void creators(Rng& g, int reps) {
       for (auto& z : mv) {
         mpz_class a = (unsigned long)g.next();
         a = a * (unsigned long)g.next() * (unsigned long)g.next();
-        switch (g.below(6)) {
+        switch (g.below(8)) {
+          case 6: z = mpz_class((unsigned long)(g.below(2) ? p0 : pl)) * (unsigned long)(1 + g.below(4)) + ((long)g.below(5) - 2); if (g.below(3) == 0) z = -z; break;  // k*p + eps
+          case 7: z = (mpz_class(1) << (unsigned long)g.below(131)) + ((long)g.below(3) - 1); if (g.below(3) == 0) z = -z; break;                          // 2^b + eps
           case 0: z = a; break;
           case 1: z = -a; break;
           case 2: z = mpz_class((unsigned long)p0) * mpz_class((unsigned long)pl) * (unsigned long)g.below(5); break;
